@@ -177,6 +177,10 @@ pub struct World {
     /// welcomes not yet released to the recipient (released when inviter merges the commit)
     pub capture_logs: bool,
     pub sensitive: BTreeSet<String>,
+    /// view of the acting node before the step being executed / just executed
+    pub prev_view: NodeView,
+    /// events that had taken effect at the acting node before the last executed step
+    pub prev_effective: BTreeSet<EvRef>,
 }
 
 #[derive(Debug, Clone, Serialize, PartialEq, Eq)]
@@ -248,6 +252,8 @@ impl World {
             pending_own: BTreeMap::new(),
             capture_logs: false,
             sensitive: BTreeSet::new(),
+            prev_view: NodeView::default(),
+            prev_effective: BTreeSet::new(),
         }
     }
 
@@ -451,6 +457,8 @@ impl World {
             return self.record(step, Outcome::new("skipped", "no such node"), String::new(), BTreeMap::new());
         }
         let pre_hash = view_hash(&self.views[node]);
+        self.prev_view = self.views[node].clone();
+        self.prev_effective = self.effective[node].clone();
         let pre_state: BTreeMap<usize, (u64, String)> =
             (0..self.groups.len()).filter_map(|g| self.node_state(node, g).map(|s| (g, s))).collect();
         self.set_clock_for(node);
